@@ -136,6 +136,8 @@ theorem put_outcome {d : Dpb} {r r' : Raw} {f : FImg} {now : Bytes} {res : R Uni
   next user name hsplit =>
   split at hop
   · cases hop; exact Or.inl ⟨rfl, hfr⟩
+  split at hop
+  · cases hop; exact Or.inl ⟨rfl, hfr⟩
   rw [getDirectory_eq h.shape h.dpb] at hop
   simp only [] at hop
   generalize (if f.end_ % (extentCapacity d / blockSize d) > 0 then 1 else 0) = inc at hop
